@@ -14,16 +14,16 @@ prop("C04", ["contracts.c04_codec"],
      bounded=[("bounded.codec", "strings_and_reals")],
      not_decided=["IEEE-754 values of REAL32/REAL64 and the ASCII / UTF-16-LE codecs are CPython's struct/codecs (only the table entry and the wrong-length rejection are proved)"])
 
-prop("C05", ["contracts.c04_codec", "contracts.c05_pdovar"], ["PdoGet", "PdoSet", "VarLen"],
+prop("C05", ["contracts.c04_codec", "contracts.c05_pdovar", "contracts.c15_pdo"], ["PdoGet", "PdoSet", "VarLen", "PdoOnMessage", "PdoDataSize"],
      not_decided=["REAL32/REAL64 mapped at unaligned offsets (float kind is opaque to the engine)"])
 
-prop("C16", ["contracts.c16_emcy"], ["OnEmcy", "EmcyReset", "EmcyAddCallback", "EmcySend", "EmcyGetDesc", "EmcyWait"],
+prop("C16", ["contracts.c16_emcy"], ["OnEmcy", "EmcyReset", "EmcyResetThenFrames", "EmcyAddCallback", "EmcySend", "EmcyGetDesc", "EmcyWait"],
      assumed=["A5 user callbacks do not re-enter the consumer and do not raise", "Network.send_message hands the frame to the bus (env/net.py)"],
      not_decided=["time-out behaviour of EmcyConsumer.wait in real time (condition variable)"])
 
-prop("C10", ["contracts.c10_network"],
-     ["Subscribe", "Unsubscribe", "Notify", "SendMessage", "PeriodicInit", "ListenerDispatch", "Scanner", "ScannerReset",
-      "RemoteAssociate", "LocalAssociate", "AddSdo", "NetSetItem"],
+prop("C10", ["contracts.c10_network", "contracts.c17_periodic", "contracts.c15_pdo"],
+     ["Subscribe", "Unsubscribe", "Notify", "SendMessage", "PeriodicInit", "TaskUpdate", "ListenerDispatch", "Scanner", "ScannerReset",
+      "RemoteAssociate", "LocalAssociate", "AddSdo", "NetSetItem", "SubscribeBoundMethod"],
      assumed=["A5 callbacks do not mutate the subscription table while being dispatched and do not raise (unknown-prefix loop summary)",
               "python-can Bus.send / send_periodic receive the Message built by the library (env/stubs.py BusStub)"],
      not_decided=["callbacks that mutate the subscription table during dispatch; real thread interleavings of notify and subscribe"])
@@ -52,7 +52,7 @@ prop("C19", ["contracts.c19_p402"],
      not_decided=["time-outs in real time; controlword/statusword carried by PDO (cached TPDO value, wait_for_reception)"])
 
 prop("C18", ["contracts.c18_lss"],
-     ["LssNoReplyServices", "LssConfigure", "LssInquire", "LssSendAddress", "LssSwitchSelective", "LssFastScanMessage", "LssFastScan", "LssFastScanTwice"],
+     ["LssNoReplyServices", "LssConfigure", "LssInquire", "LssSendAddress", "LssSwitchSelective", "LssFastScanMessage", "LssFastScan", "LssFastScanTwice", "LssStaleReplies"],
      assumed=["CiA 305 unconfigured slave (env/lss.py FastScanSlaveNet): answers a fast-scan frame iff bit-checked is 128 or "
               "(LSS sub equals its position and the identity bits above bit-checked match), then moves to LSS next",
               "at most one reply per request, delivered through LssMaster.on_message_received; silence = queue.Empty after RESPONSE_TIMEOUT",
@@ -72,7 +72,7 @@ prop("C01", ["contracts.c01_client"], ["WsInit", "WsWriteSegment", "WsWriteExped
               "composition over whole transfers and the io layer is exercised only by the bounded stand-in"],
      not_decided=["CPython io.BufferedWriter/BufferedReader/TextIOWrapper internals (assumed contract), text-mode decoding, real time"])
 
-prop("C20", ["contracts.c20_views"], ["EncodeBits", "DecodeBits", "GetBits", "BitsSetItem", "BitsAfterOtherView", "DecodeDesc", "EncodeDesc"],
+prop("C20", ["contracts.c20_views"], ["EncodeBits", "DecodeBits", "GetBits", "BitsSetItem", "BitsAfterOtherView", "DecodeDesc", "EncodeDesc", "ArrayTemplate"],
      bounded=[("bounded.phys", "phys_view")],
      assumed=["bit ranges are enumerated (every contiguous [lo,hi) in 32 bits for get/set through Bits; a covering subset for "
               "encode_bits/decode_bits directly); raw and field values are universally quantified",
@@ -87,7 +87,7 @@ prop("C15", ["contracts.c04_codec", "contracts.c05_pdovar", "contracts.c10_netwo
      not_decided=["reception from a second thread while another thread waits (real interleavings)",
                   "which of 0x1600+n / 0x1A00+n the PDO container files rx/tx maps under (fixed by the pinned test-suite, not by the statement)"])
 
-prop("C09", ["contracts.c09_pdocfg", "contracts.c15_pdo"], ["PdoSave", "PdoSaveRead", "PdoReadFromOd", "PdoSubscribe"],
+prop("C09", ["contracts.c09_pdocfg", "contracts.c15_pdo"], ["PdoSave", "PdoSaveRead", "PdoReadFromOd", "PdoSubscribe", "PdoMapsInit"],
      assumed=["strict CiA 301 device behind the PDO's communication record and mapping array (env/pdodev.py): stores accepted "
               "writes, refuses out-of-order ones; every record[sub].raw access is one SDO transfer",
               "mappings of 0, 1, 2 and 8 entries (enumerated count; every entry's index / sub-index / length universally quantified)",
@@ -95,7 +95,7 @@ prop("C09", ["contracts.c09_pdocfg", "contracts.c15_pdo"], ["PdoSave", "PdoSaveR
      not_decided=["PDO numbers 1..512 / PdoMaps construction; configuration taken from the dictionary (from_od=True); "
                   "devices with a fixed-length mapping array (the _fill_map work-around)"])
 
-prop("C12", ["contracts.c01_client", "contracts.c12_blockdown"], ["BdInit", "BdSend", "BdWrite", "BdClose", "BdRetransmit"],
+prop("C12", ["contracts.c01_client", "contracts.c12_blockdown"], ["BdInit", "BdSend", "BdWrite", "BdClose", "BdRetransmit", "ReqResp"],
      bounded=[("bounded.blocktransfer", "block_download")],
      assumed=["SdoClient request_response / read_response / send_request / abort as seen by the stream (env/blockclient.py)",
               "binascii.crc_hqx is a byte-wise fold (uninterpreted step function); the CRC-16 polynomial is CPython's",
@@ -105,7 +105,7 @@ prop("C12", ["contracts.c01_client", "contracts.c12_blockdown"], ["BdInit", "BdS
                   "arbitrary multi-loss patterns; liveness of retransmission; termination of the mutual recursion write/send/_block_ack/_retransmit"])
 
 prop("C13", ["contracts.c01_client", "contracts.c12_blockdown", "contracts.c13_blockup"],
-     ["BuInit", "BuRead", "BuAckBlock", "BuRetransmit", "BuClose"],
+     ["BuInit", "BuRead", "BuAckBlock", "BuRetransmit", "BuClose", "ReqResp"],
      bounded=[("bounded.blocktransfer", "block_upload")],
      assumed=["SdoClient request_response / read_response / send_request / abort as seen by the stream (env/blockclient.py)",
               "binascii.crc_hqx is a byte-wise fold (uninterpreted step function)",
@@ -114,7 +114,7 @@ prop("C13", ["contracts.c01_client", "contracts.c12_blockdown", "contracts.c13_b
                   "the end-to-end claim for every value length and loss pattern is only covered by the bounded stand-in; "
                   "timing of _retransmit's deadline loop"])
 
-prop("C08", ["contracts.c04_codec", "contracts.c08_eds"], ["CalcBitLength", "SignedIntFromHex", "BuildVariableNumbers", "OdLookup"],
+prop("C08", ["contracts.c04_codec", "contracts.c08_eds", "contracts.c20_views"], ["CalcBitLength", "SignedIntFromHex", "BuildVariableNumbers", "OdLookup", "ArrayTemplate"],
      bounded=[("bounded.eds", "import_described")],
      assumed=["trusted axioms about CPython text/number conversion: int(text_of(n), 0) == n for the spellings 0x%X and %d; "
               "a numeric text stays the text of the same number under .upper() and removal of blanks and never contains '$NODEID'",
